@@ -8,6 +8,30 @@ RULE = ("Scenarios come from the harness generators (one splitmix64 PRNG per sce
 DIST_KEYS = {"cyclic", "abort", "small", "outcome", "form", "depth", "rules", "palette", "class", "prem", "gens"}
 
 
+def _probe(name, n, size=0, opt="", **kw):
+    d = {"n": n, "size": size, "opt": opt}
+    d.update(kw)
+    return (name, d)
+
+
+# families that expose the defect behind each source fact (they are what re-derived the defect before its repair);
+# run, with the model in the repaired variant, when the textual pattern of the fact is not recognised in the source
+PROBES = {
+    "r5SkipSame": [_probe("call", 1500, 0, "general")],
+    "r6NameTest": [_probe("call", 1500, 0, "general")],
+    "publishAfterUpdate": [_probe("call", 1500, 0, "general"), _probe("call", 600, 0, "single")],
+    "takeValuedNamed": [_probe("call", 1500, 0, "general"), _probe("call", 600, 0, "exact")],
+    "trackReaching": [_probe("call", 800, 0, "hopeless")],
+    "r8SkipSupplied": [_probe("redef", 800, 0)],
+    "skipRecordsInput": [_probe("redef", 800, 0)],
+    "dupIsError": [_probe("redef", 800, 0)],
+    "memoCopy": [_probe("hist", 700, 0)],
+    "onceLockCoversCall": [_probe("race", 40, 8, "25", bin="harness-race")],
+    "fixedReverse": [_probe("gops", 800, 5)],
+    "vsetValidates": [_probe("vset", 1500, 6)],
+}
+
+
 def nontrivial(kind, st, r):
     g = lambda k, d=0: int(st.get(k, d)) if str(st.get(k, d)).lstrip("-").isdigit() else d
     if kind == "gops":
@@ -117,8 +141,8 @@ PROPS = {
     },
     "C06": {
         "claim": "Theorems (any oracle, behaviour, state): reach_never_out_of_fuel / call_never_out_of_fuel (recursion depth bounded by the number of function vertices), no_elem_or_unknown_panic, malformed_options, counterexample_mutual_cycle_diverges (the unrepaired model diverges on the F3 input), generator_error_reported / generators_transparent / runGens_perm (converter generators: an error on any visited value aborts with an error for every iteration order; otherwise the graph is callGraph of the builder extended by the generated converters). No panic, crash or unbounded recursion on well-formed use. Decided on the model's explicit panic sites and fuel; real stack / reflect behaviour by crash-isolated exploration (worker restarted after a fatal stack overflow).",
-        "note": "partial: only the modelled panic sites and the modelled recursion are covered by the model; the rest by exploration.",
-        "theorems": ["ArgMapper.C06.reach_never_out_of_fuel", "ArgMapper.C06.call_never_out_of_fuel", "ArgMapper.C06.counterexample_mutual_cycle_diverges", "ArgMapper.C06.no_elem_or_unknown_panic", "ArgMapper.C06.malformed_options", "ArgMapper.C06.ignored_options", "ArgMapper.C06.generators_transparent", "ArgMapper.C06.no_generators", "ArgMapper.C06.generator_error_reported", "ArgMapper.C06.generated_sound_complete", "ArgMapper.C06.runGens_perm", "ArgMapper.C06.genVerts_kinds", "ArgMapper.C06.supplied_in_snapshot"],
+        "note": "all modelled panic sites are proved unreachable (no_elem_or_unknown_panic for every oracle; no_walk_panic_partial_final_set for every legal oracle, full label language: neither the final-value panic nor reflect's Set panic); partial only in that real reflect / stack behaviour outside the model is covered by crash-isolated exploration.",
+        "theorems": ["ArgMapper.C06.reach_never_out_of_fuel", "ArgMapper.C06.call_never_out_of_fuel", "ArgMapper.C06.counterexample_mutual_cycle_diverges", "ArgMapper.C06.no_elem_or_unknown_panic", "ArgMapper.C06.malformed_options", "ArgMapper.C06.ignored_options", "ArgMapper.C06.no_walk_panic", "ArgMapper.C06.no_walk_panic_partial_final_set", "ArgMapper.C06.no_walk_panic_partial_single_input", "ArgMapper.C06.paramsKept_of_single", "ArgMapper.C06.counterexample_missing_arg", "ArgMapper.C06.generators_transparent", "ArgMapper.C06.no_generators", "ArgMapper.C06.generator_error_reported", "ArgMapper.C06.generated_sound_complete", "ArgMapper.C06.runGens_perm", "ArgMapper.C06.genVerts_kinds", "ArgMapper.C06.supplied_in_snapshot"],
         "facts": {"r5SkipSame": "true", "r6NameTest": "true", "publishAfterUpdate": "true", "trackReaching": "true", "takeValuedNamed": "true", "memoCopy": "true"},
         "rule": "call: at least one function executed, or an unsatisfied error with a converter present; sig: positional signatures.",
         "runs": {"quick": [fam("call", 800, 0), fam("call", 300, 0, "malformed"), fam("call", 300, 0, "gens"), fam("sig", 600, 5), fam("hist", 400, 0), fam("redef", 300, 0), fam("conv", 300, 0)],
